@@ -34,6 +34,7 @@ import (
 	"github.com/lindb/lindb/config"
 	"github.com/lindb/lindb/constants"
 	"github.com/lindb/lindb/flow"
+	"github.com/lindb/lindb/internal/verifhook"
 	"github.com/lindb/lindb/kv"
 	"github.com/lindb/lindb/metrics"
 	"github.com/lindb/lindb/models"
@@ -536,6 +537,7 @@ func (f *dataFamily) WriteRows(rows []*metric.StorageRow) error {
 		f.statistics.WriteMetricFailures.Add(float64(len(rows)))
 		return err
 	}
+	verifhook.Yield("tsdb.dataFamily.writeRows.afterGetMemDB")
 	db.AcquireWrite()
 	defer func() {
 		f.statistics.WriteBatches.Incr()
